@@ -101,6 +101,9 @@ class Gen:
         return ['rng', b, s, c1, r1, c2, r2]
 
     def rect_ids(self, e):
+        if e[0] == 'col':        # a whole column: the populated part is the grid's rows
+            _, b, s, c = e
+            return [[cid(b, s, c, r)] for r in range(1, self.grid[1] + 1)]
         _, b, s, c1, r1, c2, r2 = e
         return [[cid(b, s, c, r) for c in range(c1, c2 + 1)] for r in range(r1, r2 + 1)]
 
@@ -135,6 +138,9 @@ class Gen:
         return ['fn', 'ISERROR', [['ref', self.pick_ref()]]]
 
     def range_arg(self):
+        if 'wholecol' in self.features and self.rnd.random() < 0.12:
+            b, s = self.rnd.choice(self.sheets)
+            return ['col', b, s, self.rnd.randint(1, self.grid[0])]
         if self.names and 'names' in self.features and self.rnd.random() < 0.2 \
                 and self.host_book == NAME_BOOK:
             ns = [n for n in sorted(self.names) if self.names[n][0] == 'rng']
@@ -246,7 +252,7 @@ def tla_expr(g, e):
         return ['c', e[1]]
     if k == 'ref':
         return ['ref', e[1]]
-    if k == 'rng':
+    if k in ('rng', 'col'):
         return ['rng', g.rect_ids(e)]
     if k == 'name':
         return ['name', e[1]]
@@ -317,6 +323,12 @@ def expr_text(g, e, host, qualify='min', rnd=None):
         if rnd is not None and rnd.random() < 0.3:
             ref = rnd.choice(['$%s$%d' % (COLS[c - 1], r), ref.lower(), '%s$%d' % (COLS[c - 1], r)])
         return ref_text(host, b, s, ref, qualify)
+    if k == 'col':
+        _, b, s, c = e
+        ref = '%s:%s' % (COLS[c - 1], COLS[c - 1])
+        if rnd is not None and rnd.random() < 0.3:
+            ref = rnd.choice([ref.lower(), '$%s:$%s' % (COLS[c - 1], COLS[c - 1])])
+        return ref_text(host, b, s, ref, qualify)
     if k == 'rng':
         _, b, s, c1, r1, c2, r2 = e
         ref = '%s:%s' % (a1(c1, r1), a1(c2, r2))
@@ -363,7 +375,7 @@ def expr_ids(g, e):
         return set()
     if k == 'ref':
         return {e[1]}
-    if k == 'rng':
+    if k in ('rng', 'col'):
         return {x for row in g.rect_ids(e) for x in row}
     if k == 'name':
         return expr_ids(g, g.names[e[1]])
@@ -410,6 +422,8 @@ def make(seed, **kw):
     four has sheet titles whose case mappings are not mirror images (LAYOUT_CASE) and one
     in four the same sheet title in two books (LAYOUT_SAME)."""
     kw = dict(kw)
+    if 'wholecol' in kw.get('features', ()) and seed % 2 == 0:
+        return make_wholecol(seed)
     if kw.pop('overlaps', False) and seed % 5 == 2:
         return make_overlap(seed)
     if kw.pop('case_titles', False) and 'sheets' not in kw:
@@ -502,6 +516,33 @@ def make_overlap(seed):
     g.cells[f2] = {'k': 'f', 'e': ['fn', fn2, [rect(3, 4, 1, 2)]]}           # 4 cells, 1 blank
     g.order += [f1, f2]
     g.directed = [[at(3)], [at(2)], [at(3), at(1)], [at(4)]]
+    g.seed = seed
+    return g
+
+
+def make_wholecol(seed):
+    """A column with one blank cell that has a node of its own (referred to directly, or the
+    only blank of a referenced range) and populated cells around it, read through a
+    whole-column reference."""
+    rnd = random.Random(seed * 61 + 5)
+    g = Gen(rnd, sheets=LAYOUT[:1], features=())
+    b, s = LAYOUT[0]
+    col = rnd.randint(1, 2)
+    blank = rnd.randint(1, 3)                       # rows 1..4, something populated below it
+    for r in range(1, 5):
+        if r != blank:
+            g.cells[cid(b, s, col, r)] = {'k': 'c', 'v': norm(rnd.choice(NUMS))}
+            g.order.append(cid(b, s, col, r))
+    out = 3
+    fn = rnd.choice(['SUM', 'SUM', 'MAX', 'COUNT'])
+    g.cells[cid(b, s, out, 1)] = {'k': 'f', 'e': ['fn', fn, [['col', b, s, col]]]}
+    if rnd.random() < 0.5:
+        g.cells[cid(b, s, out, 2)] = {'k': 'f', 'e': ['ref', cid(b, s, col, blank)]}
+    else:
+        lo, hi = max(1, blank - 1), min(4, blank + 1)
+        g.cells[cid(b, s, out, 2)] = {'k': 'f', 'e': ['fn', 'SUM', [['rng', b, s, col, lo, col, hi]]]}
+    g.cells[cid(b, s, out, 3)] = {'k': 'f', 'e': ['op', '+', ['ref', cid(b, s, out, 1)], ['c', norm(V.N(1))]]}
+    g.order += [cid(b, s, out, 1), cid(b, s, out, 2), cid(b, s, out, 3)]
     g.seed = seed
     return g
 
